@@ -462,11 +462,16 @@ fn put(v: &mut Vec<f32>, b: &[f32], overflow: &mut bool) {
     }
 }
 
-/// A node that does nothing: feeders (the driver writes their buffers) and `hold` nodes of nested graphs.
+/// A user node that writes nothing (feeders whose buffers the driver writes, `hold` nodes of nested
+/// graphs, and the node under test of kind "hold").  Its invocations are counted: a wrapper must call
+/// the node it wraps exactly once per process call even when there is nothing to write to.
+static HOLD_CALLS: std::sync::atomic::AtomicUsize = std::sync::atomic::AtomicUsize::new(0);
 #[derive(Clone)]
 struct Hold;
 impl Node for Hold {
-    fn process(&mut self, _inputs: &[Input], _output: &mut [Buffer]) {}
+    fn process(&mut self, _inputs: &[Input], _output: &mut [Buffer]) {
+        HOLD_CALLS.fetch_add(1, std::sync::atomic::Ordering::Relaxed);
+    }
 }
 
 enum Slot<W> {
@@ -548,6 +553,8 @@ macro_rules! c16_runner {
             let mut c2 = cfg.clone();
             c2["len"] = json!(LEN);
             out.line(&json!({"ev":"reset","comp":"node","cfg":c2,"r":r_unit(),"o":{"ok":true}}));
+            let is_hold = cfg["node"]["kind"] == "hold";
+            HOLD_CALLS.store(0, std::sync::atomic::Ordering::Relaxed);
             for op in ops {
                 let mut r2 = Rng::new(op["a"]["seed"].as_u64().unwrap_or(0));
                 for &f in fix.iter() {
@@ -590,6 +597,10 @@ macro_rules! c16_runner {
                     json!({"ok": res.is_some() && !r.overflow && r.calls == 1, "exact": exact, "src": r.src, "ins": ins,
                            "before": before, "after": after})
                 });
+                let mut o = o;
+                if is_hold {
+                    o["icalls"] = json!(HOLD_CALLS.load(std::sync::atomic::Ordering::Relaxed));
+                }
                 out.ev("call", op["a"].clone(), if res.is_some() { r_unit() } else { r_panic() }, o, h);
             }
         }
@@ -658,7 +669,9 @@ fn sumbuf_fn(i: &[Input], o: &mut [Buffer]) {
 fn pass_fn(i: &[Input], o: &mut [Buffer]) {
     Pass.process(i, o)
 }
-fn hold_fn(_i: &[Input], _o: &mut [Buffer]) {}
+fn hold_fn(_i: &[Input], _o: &mut [Buffer]) {
+    HOLD_CALLS.fetch_add(1, std::sync::atomic::Ordering::Relaxed);
+}
 
 /// Which wrappers exist for a kind (the type system decides; anything else falls back to "plain").
 fn wrapper_ok(kind: &str, w: &str) -> bool {
